@@ -203,7 +203,9 @@ func main() {
 			fmt.Fprintln(os.Stderr, err)
 			os.Exit(2)
 		}
-		c.replay = &v
+		if v.Input != "" { // a record without an input (broken proof / tie) is replayed by re-running the whole check
+			c.replay = &v
+		}
 		c.prop = v.Property
 		c.seed = v.Seed
 		c.rep.Property = v.Property
